@@ -2,7 +2,7 @@
 \* defects, token mutations of the base programs, Markdown structure, nesting
 SPECIFICATION Spec
 CONSTANTS
-  Families = {"expr", "stmt", "defs", "mut", "doc", "nest"}
+  Families = {"expr", "stmt", "defs", "arity", "card", "mut", "doc", "nest"}
   GrowDepth = 0
   Stride = 1
   MutStride = 1
